@@ -26,11 +26,12 @@ Maps == { << >> } \cup { << a >> : a \in Pats } \cup { << a, b >> \in Pats \X Pa
         \cup { << a, b, d >> \in Pats \X Pats \X Pats : a # b /\ b # d /\ a # d /\ a \in {"any", "done"} }
 Init == pm \in Maps /\ c = [path |-> ""]
 Next == /\ c.path = "" /\ UNCHANGED pm
-        /\ \E path \in Paths, old \in {"", "# Old content\n\n- keep me\n"}, ow \in BOOLEAN, ex \in {"", "explicit"}, extra \in {"", "foo"} :
+        /\ \E path \in Paths, old \in {"", "# Old content\n\n- keep me\n"}, ow \in BOOLEAN, ex \in {"", "explicit"}, extra \in {"", "foo"},
+              noext \in BOOLEAN :          \* the page may be named without its .zo extension
              LET R(p, q) == RenderWith(extra)[p][q]
                  once  == InitResult(old, ow, pm, path, ex, Matches, R)
                  twice == InitResult(once, ow, pm, path, ex, Matches, R)
-             IN c' = [path |-> path, old |-> old, overwrite |-> ow, explicit |-> ex, extra |-> extra, map |-> pm, once |-> once, twice |-> twice]
+             IN c' = [path |-> path, old |-> old, overwrite |-> ow, explicit |-> ex, extra |-> extra, map |-> pm, noext |-> noext, once |-> once, twice |-> twice]
 Spec == Init /\ [][Next]_<<pm, c>>
 EmitCase == c.path = "" \/ PrintT(ToJson(c))
 \* the laws of the property, on the specification itself
